@@ -399,7 +399,7 @@ func (w *World) registerIntrinsics() {
 					return tTrue
 				}
 			}
-			um := e.w.prog.LookupMethod(err.typ, nil, "Unwrap")
+			um := e.w.findMethod(err.typ, "Unwrap")
 			if um == nil {
 				return tFalse
 			}
@@ -417,7 +417,7 @@ func (w *World) registerIntrinsics() {
 		if err.typ == nil {
 			return nilIface
 		}
-		um := e.w.prog.LookupMethod(err.typ, nil, "Unwrap")
+		um := e.w.findMethod(err.typ, "Unwrap")
 		if um == nil {
 			return nilIface
 		}
@@ -639,28 +639,45 @@ func (e *Exec) trimSet(s *Term, set string, left, right bool) *Term {
 		rs = append(rs, reLit(set[i:i+1]))
 	}
 	setStar := reStar(reUnion(rs...))
-	notSet := reComp(reConcat(reUnion(rs...), reAll()))
-	notSetEnd := reComp(reConcat(reAll(), reUnion(rs...)))
+	notInSet := func(code *Term) *Term {
+		var cs []*Term
+		for i := 0; i < len(set); i++ {
+			cs = append(cs, mkNot(mkEq(code, mkInt(int64(set[i])))))
+		}
+		return mkAnd(cs...)
+	}
 	a, b := mkInt(0), mkLen(s)
 	var cs []*Term
+	var defs []*Term
 	if left {
 		a, _ = e.memoFresh("trimL|"+set+"|"+s.String(), "trimL", SInt)
+		defs = append(defs, a)
 		cs = append(cs, mkGe(a, mkInt(0)), mkLe(a, mkLen(s)), mkInRe(mkSubstr(s, mkInt(0), a), setStar))
 	}
 	if right {
 		b, _ = e.memoFresh("trimR|"+set+"|"+s.String(), "trimR", SInt)
+		defs = append(defs, b)
 		cs = append(cs, mkGe(b, a), mkLe(b, mkLen(s)), mkInRe(mkSubstr(s, b, mkSub(mkLen(s), b)), setStar))
 	} else {
 		cs = append(cs, mkLe(a, b))
 	}
 	r := mkSliceIn(s, a, mkSub(b, a))
+	empty := mkEq(a, b)
 	if left {
-		cs = append(cs, mkInRe(r, notSet))
+		cs = append(cs, mkOr(empty, notInSet(mkToCode(mkAt(s, a)))))
 	}
 	if right {
-		cs = append(cs, mkInRe(r, notSetEnd))
+		cs = append(cs, mkOr(empty, notInSet(mkToCode(mkAt(s, mkSub(b, mkInt(1)))))))
+		if left {
+			// an all-set string trims to empty at its end (a = b = len s), as strings.Trim does
+			cs = append(cs, mkImplies(empty, mkEq(a, mkLen(s))))
+		}
 	}
-	e.assume(mkAnd(cs...))
+	key := "trimdone|" + set + "|" + s.String() + fmt.Sprint(left, right)
+	if _, isNew := e.memoFresh(key, "trimdone", SBool); isNew {
+		e.assume(mkAnd(cs...))
+	}
+	_ = defs
 	return r
 }
 
@@ -749,12 +766,12 @@ func (e *Exec) fmtValue(v Value, verb byte) *Term {
 		}
 		// error / Stringer
 		if verb != 'd' {
-			if m := e.w.prog.LookupMethod(x.typ, nil, "Error"); m != nil {
+			if m := e.w.findMethod(x.typ, "Error"); m != nil {
 				if r, ok := e.callFunction(m, []Value{x.val}).(*Term); ok {
 					return r
 				}
 			}
-			if m := e.w.prog.LookupMethod(x.typ, nil, "String"); m != nil && m.Signature.Params().Len() == 0 {
+			if m := e.w.findMethod(x.typ, "String"); m != nil && m.Signature.Params().Len() == 0 {
 				if e.w.lookupIntrinsic(m) != nil || (m.Blocks != nil && !e.w.blocked(m)) {
 					if r, ok := e.callFunction(m, []Value{x.val}).(*Term); ok {
 						return r
